@@ -191,10 +191,10 @@ ANTECEDENTS = {
     "C08": ["wide_layouts", "layouts_genD", "exhaustive_layouts_completed", "exhaustive_transitions", "c08_presses_of_other_key_while_armed", "c08_trigger_pressed_again_first", "c08_counts_again_checks", "c08_dup_press_of_absorbed_modifier", "distinct_nontrivial"],
     "C09": ["wide_layouts", "layouts_genD", "exhaustive_layouts_completed", "exhaustive_transitions", "c09_special_firings", "c09_ignored_events_while_repeat_pending", "c09_acted_events_while_repeat_pending", "distinct_nontrivial"],
     "C19": ["wide_layouts", "layouts_genD", "exhaustive_layouts_completed", "exhaustive_transitions", "c19_steps_with_shared_output_in_effect", "release_all_calls", "distinct_nontrivial"],
-    "C10": ["realdrv_cases", "realdrv_quiescent_points_compared", "realdrv_wakeups_with_2plus_key_records", "realdrv_writes_compared", "realdrv_foreign_records", "realdrv_interruptions", "realdrv_empty_wakeups", "realdrv_end_keyboard", "schedules_with_consecutive_interruptions", "backoff_sleeps_on_the_virtual_clock", "flood_histories", "wide_histories", "schedules_with_a_stall", "wakeups_with_2plus_events", "wakeups_both_devices", "spurious_timeouts", "interruptions", "end_keyboard", "end_tablet", "metamorphic_runs", "distinct_nontrivial"],
+    "C10": ["realdrv_cases", "realdrv_quiescent_points_compared", "realdrv_wakeups_with_2plus_key_records", "realdrv_writes_compared", "realdrv_foreign_records", "realdrv_interruptions", "realdrv_empty_wakeups", "realdrv_end_keyboard", "realdrv_hang_ups_reported", "schedules_with_consecutive_interruptions", "backoff_sleeps_on_the_virtual_clock", "flood_histories", "wide_histories", "schedules_with_a_stall", "wakeups_with_2plus_events", "wakeups_both_devices", "spurious_timeouts", "interruptions", "end_keyboard", "end_tablet", "metamorphic_runs", "distinct_nontrivial"],
     "C11": ["schedules_with_consecutive_interruptions", "wide_histories", "schedules_with_a_stall", "ticks", "firings_with_3plus_ticks", "ticks_with_chord_key_held", "ticks_after_ignored_event", "cancellations_by_other_key", "catchup_polls", "real_clock_timed_polls", "distinct_nontrivial"],
     "C12": ["realdrv_cases", "realdrv_switch_on", "realdrv_quiescent_points_compared", "realdrv_writes_compared", "schedules_with_consecutive_interruptions", "wide_histories", "schedules_with_a_stall", "tablet_on", "tablet_on_with_keys_held", "tablet_on_with_repeat_pending", "tablet_repeated", "kb_events_in_tablet_mode", "post_off_steps", "tablet_and_keyboard_same_wakeup", "distinct_nontrivial"],
-    "C20": ["realdrv_cases", "realdrv_fault_runs", "realdrv_faults_at_read_keyboard", "realdrv_faults_at_read_tablet", "realdrv_faults_at_write_output", "realdrv_faults_at_epoll_wait", "realdrv_enodev_reads", "schedules_with_consecutive_interruptions", "backoff_sleeps_on_the_virtual_clock", "wide_histories", "fault_runs", "faults_at_send", "faults_at_poll", "faults_at_next_keyboard", "faults_at_next_tablet", "faults_at_register_poll", "distinct_nontrivial"],
+    "C20": ["realdrv_cases", "realdrv_fault_runs", "realdrv_faults_at_read_keyboard", "realdrv_faults_at_read_tablet", "realdrv_faults_at_write_output", "realdrv_faults_at_epoll_wait", "realdrv_enodev_reads", "realdrv_late_failures_of_a_timed_wait", "schedules_with_consecutive_interruptions", "backoff_sleeps_on_the_virtual_clock", "wide_histories", "fault_runs", "faults_at_send", "faults_at_poll", "faults_at_next_keyboard", "faults_at_next_tablet", "faults_at_register_poll", "distinct_nontrivial"],
 }
 
 import json as _json, os as _os
